@@ -345,12 +345,79 @@ fn check(c: &Case, obs: &mut Obs) -> Result<(), Fail> {
     Ok(())
 }
 
+/// Make the recipe one the mutator applies to (construction instead of rejection): the era is moved into the range
+/// where the rule exists and the optional part the rule is about is switched on. Everything else stays as generated.
+fn fit(mut spec: Spec, m: Mut, spare: &forge::PlutusS, salt: u8) -> Spec {
+    let later = |from: EraK, salt: u8| -> EraK {
+        let all = EraK::all();
+        let lo = all.iter().position(|e| *e == from).unwrap();
+        all[lo + (salt as usize) % (all.len() - lo)]
+    };
+    let need_plutus = matches!(
+        m,
+        Mut::NoCollateralAllowed | Mut::CollateralToScriptAddress | Mut::CollateralWithAssets | Mut::CollateralTooSmall | Mut::RaiseCollateralPercentage
+            | Mut::WrongTotalCollateral | Mut::DropPlutusScript | Mut::DropDatum | Mut::DropRedeemer | Mut::WrongScriptDataHash | Mut::RemoveCollateralUtxo
+            | Mut::AlterCostModel | Mut::DropCostModel
+    );
+    if need_plutus {
+        let from = match m {
+            Mut::AlterCostModel | Mut::DropCostModel => EraK::Conway,
+            Mut::WrongTotalCollateral => EraK::Babbage,
+            _ => EraK::Alonzo,
+        };
+        if spec.era < from {
+            spec.era = later(from, salt);
+        }
+        if spec.plutus.is_none() {
+            spec.plutus = Some(spare.clone());
+        }
+        if m == Mut::WrongTotalCollateral {
+            if let Some(p) = &mut spec.plutus {
+                p.total_collateral = true;
+            }
+        }
+    }
+    match m {
+        Mut::AlterAuxDataKeepHash | Mut::WrongAuxHash | Mut::DropAuxDataKeepHash | Mut::AuxDataWithoutHash | Mut::HashWithoutAuxData => {
+            if spec.metadata.is_none() {
+                spec.metadata = Some(salt);
+            }
+        }
+        Mut::SlotBeforeValidityStart => {
+            if spec.era < EraK::Alonzo {
+                spec.era = later(EraK::Alonzo, salt);
+            }
+            if spec.validity_back.is_none() {
+                spec.validity_back = Some(1 + salt as u16 * 7);
+            }
+        }
+        Mut::LowerMaxValueSize | Mut::BodyNetworkIdWrong => {
+            if spec.era < EraK::Alonzo {
+                spec.era = later(EraK::Alonzo, salt);
+            }
+            if m == Mut::BodyNetworkIdWrong {
+                spec.body_network_id = true;
+            }
+        }
+        Mut::DropNativeScriptOfMint => {
+            if spec.era < EraK::Mary {
+                spec.era = later(EraK::Mary, salt);
+            }
+            if spec.mint.iter().all(|x| x.2 == 0) {
+                spec.mint.push((salt % 3, salt % 6, 1 + salt as i64));
+            }
+        }
+        _ => {}
+    }
+    spec
+}
+
 pub fn run(s: &Session) {
-    s.set_rule("accepted TxForge transactions of every post-Byron era under 26 rule-specific mutators (empty inputs; spent / \
+    s.set_rule("accepted TxForge transactions of every post-Byron era under 28 rule-specific mutators (empty inputs; spent / \
         collateral UTxO entry removed; slot past ttl / before validity start; minimum ada raised; maximum value size lowered; \
         network id of the environment, of the body, of an output flipped; collateral count limit, kind, amount, percentage, \
         annotation; native script of a mint, Plutus script, datum, redeemer dropped; auxiliary data altered / dropped with the \
-        hash kept, wrong hash; wrong script-data hash; cost model altered / removed). Body-level mutators are re-signed. \
+        hash kept, wrong hash, data without a hash in the body, hash without data; wrong script-data hash; cost model altered / removed). Body-level mutators are re-signed. \
         Singles exhaustively per generated transaction (every applicable mutator alone) and random pairs. Oracle: validation \
         fails. Non-trivial = a mutator applied to an accepted base; distinct = distinct (recipe, mutators)");
     s.assume("mutators only exist for rules the validator of that era implements (e.g. the validity-interval lower bound from Alonzo on)");
@@ -358,13 +425,16 @@ pub fn run(s: &Session) {
     s.forall(
         "single-mutators",
         s.pick(40_000, 800_000),
-        || (gen::spec(), 0usize..ALL.len()).prop_map(|(spec, i)| Case { spec, muts: vec![ALL[i]] }),
+        || (gen::spec(), 0usize..ALL.len(), gen::plutus_s(), any::<u8>()).prop_map(|(spec, i, spare, salt)| Case { spec: fit(spec, ALL[i], &spare, salt), muts: vec![ALL[i]] }),
         check,
     );
     s.forall(
         "mutator-pairs",
         s.pick(20_000, 400_000),
-        || (gen::spec(), 0usize..ALL.len(), 0usize..ALL.len()).prop_map(|(spec, i, j)| Case { spec, muts: vec![ALL[i], ALL[j]] }),
+        || {
+            (gen::spec(), 0usize..ALL.len(), 0usize..ALL.len(), gen::plutus_s(), any::<u8>())
+                .prop_map(|(spec, i, j, spare, salt)| Case { spec: fit(fit(spec, ALL[i], &spare, salt), ALL[j], &spare, salt), muts: vec![ALL[i], ALL[j]] })
+        },
         check,
     );
     if !s.replaying() {
